@@ -111,6 +111,11 @@ func (s *sortedSet[ElementType, WeightType]) addSorted(element ElementType) {
 				defer s.mutex.Unlock()
 			}
 
+			// ignore updates that were racing with the deletion of the element
+			if listElement.deleted {
+				return
+			}
+
 			listElement.weight = newWeight
 
 			s.updatePosition(listElement)
@@ -120,12 +125,21 @@ func (s *sortedSet[ElementType, WeightType]) addSorted(element ElementType) {
 
 // deleteSorted deletes the given element from the sortedElements slice.
 func (s *sortedSet[ElementType, WeightType]) deleteSorted(element ElementType) {
+	// unsubscribe from weight updates after the mutex was released (a concurrent weight update holds the execution
+	// lock of its callback while it is waiting for the mutex, so unsubscribing while holding the mutex can deadlock)
+	var unsubscribeFromWeightUpdates func()
+	defer func() {
+		if unsubscribeFromWeightUpdates != nil {
+			unsubscribeFromWeightUpdates()
+		}
+	}()
+
 	s.mutex.Lock()
 	defer s.mutex.Unlock()
 
 	if deletedElement, deleted := s.elements.DeleteAndReturn(element); deleted {
-		// unsubscribe from weight updates
-		deletedElement.unsubscribeFromWeightUpdates()
+		deletedElement.deleted = true
+		unsubscribeFromWeightUpdates = deletedElement.unsubscribeFromWeightUpdates
 
 		// shift all elements to the right of the deleted element one position to the left
 		for i := deletedElement.index; i < len(s.sortedElements)-1; i++ {
@@ -235,6 +249,9 @@ type sortedSetElement[ElementType comparable, WeightType cmp.Ordered] struct {
 
 	// unsubscribeFromWeightUpdates is the function that is used to unsubscribe from weight updates.
 	unsubscribeFromWeightUpdates func()
+
+	// deleted is set when the element was removed from the set (weight updates that arrive afterwards are ignored).
+	deleted bool
 }
 
 // newSortedSetElement creates a new sortedSetElement instance.
